@@ -50,7 +50,13 @@ TRUSTED = ["the text parser of this module, used by the ORACLE only (which recor
            "calls setlocale), str.center, str.expandtabs, len are what the model's Val.format / center / expandtabsLen transcribe",
            "CPython list / dict / defaultdict / pickle semantics (list.pop, slice.indices, dict.update); the index list of a "
            "slice is computed by Python and handed to the model",
-           "strings never contain a newline (the text is returned as ONE string joined by newlines)"]
+           "strings never contain a newline (the text is returned as ONE string joined by newlines)",
+           "translator tie: harness/py2lean_c18.py (its docstring = the accepted Python sub-language and the state-passing rendering of objects, "
+           "dicts, functools.partial, loops, exceptions, recursion by fuel) and lean/DeapModel/Core/GenPreludeC18.lean (dictSet / dictGet, list.pop, "
+           "sorted, the Res outcome type, the loop combinators); the signature table METHODS of py2lean_c18.py (field and parameter types: buffindex is a "
+           "length, names are numbers, the argument of __delitem__ is an int or a slice known through the builtin slice.indices); a call of "
+           "Logbook.__txt__ is rendered as the model's observation Logbook.txt (its text is tied by the differential correspondence only); "
+           "Logbook.record and Logbook.__txt__ are refused (listed in evidence/C18.translated.json) and stay tied by correspondence only"]
 ASSUMPTIONS = ["chapter alignment (at every depth) is demanded for logbooks all of whose records carry the same chapter names at "
                "every level (DESIGN section 6); integer indices out of range must raise and change nothing; pop / del on a "
                "logbook whose chapters are misaligned by construction (records with differing chapter names) only compare "
@@ -86,6 +92,27 @@ for _i, _n in enumerate(CHAPTERS):
     NUM[_n] = 10 + _i
 for _i, _n in enumerate(SUBS):
     NUM[_n] = 20 + _i
+
+
+def translate(repo):
+    """translator tie (lib._translated_obligations): Lean definitions regenerated from `repo`'s current deap/tools/support.py +
+    the committed theorems `Gen.<Class>_<method> = <model>` of lean/DeapModel/GenEq/C18.lean.tmpl (harness/py2lean_c18.py)"""
+    from props import c18_translate
+    import json
+    import os
+    import lib
+    tr = c18_translate.translate(repo)
+    try:
+        os.makedirs(os.path.join(lib.OUT, "evidence"), exist_ok=True)
+        with open(os.path.join(lib.OUT, "evidence", "C18.translated.json"), "w") as fh:
+            json.dump({"definitions": len(tr["definitions"]), "theorems": len(tr["theorems"]),
+                       "refused": len(tr["refused"]), "problems": tr["problems"],
+                       "methods": [dict(name=n, status=st, detail=d) for n, st, d in tr.get("table", [])],
+                       "theorem_names": tr["theorems"]}, fh, indent=1)
+            fh.write("\n")
+    except OSError:
+        pass
+    return tr
 
 
 def is_dict(v):
